@@ -113,6 +113,12 @@ Proof.
   - right. rewrite refs_cons, in_app_iff. auto.
 Qed.
 
+Lemma in_refs_keep_keys kd orig cs l : In l (refs (mkObj kd (keep_keys orig cs))) -> In l (refs (mkObj kd cs)).
+Proof.
+  unfold refs, keep_keys. cbn [ocells]. intros H. apply in_flat_map in H as (c & Hc & Hl). apply filter_In in Hc as [Hc _].
+  apply in_flat_map. exists c. auto.
+Qed.
+
 Lemma closed_above_combine N h h' :
   closed_above N h -> (N <= length h)%nat -> (forall l, (l < length h)%nat -> nth_error h' l = nth_error h l) ->
   closed_above (length h) h' -> closed_above N h'.
@@ -149,8 +155,8 @@ Proof.
   pose proof (ext_length _ _ X3) as L3.
   assert (Ro' : forall l, In l (refs o') -> (N <= l < length h3)%nat).
   { intros l Hl. split; [eapply C3; eauto; unfold N; lia | eapply W3; eauto]. }
-  assert (Rn : forall l, In l (refs (mkObj (okind o') (dict_update (ocells o') cs'))) -> (N <= l < length h3)%nat).
-  { intros l Hl. apply in_refs_dict_update in Hl. destruct Hl as [Hl|Hl].
+  assert (Rn : forall l, In l (refs (mkObj (okind o') (keep_keys (ocells o) (dict_update (ocells o') cs')))) -> (N <= l < length h3)%nat).
+  { intros l Hl. apply in_refs_keep_keys in Hl. apply in_refs_dict_update in Hl. destruct Hl as [Hl|Hl].
     - apply Ro'. destruct o'; exact Hl.
     - eapply cells_ok_refs; eauto. }
   unfold set_obj. repeat split.
@@ -304,8 +310,8 @@ Proof.
   destruct (init_M_spec N _ _ _ _ _ _ _ I W2 ltac:(fold N in L1; lia) C2 IA) as (W3 & C3 & -> & L3 & U3).
   destruct (dc_entries_pol_spec _ N _ _ _ _ E W3 ltac:(fold N in L1; lia) C3) as (X4 & W4 & C4 & K4 & _).
   pose proof (ext_length _ _ X4) as L4. fold N in L1.
-  assert (Rn : forall l, In l (refs (mkObj (okind o') (dict_update (ocells o') es))) -> (N <= l < length h4)%nat).
-  { intros l Hl. apply in_refs_dict_update in Hl. destruct Hl as [Hl|Hl].
+  assert (Rn : forall l, In l (refs (mkObj (okind o') (keep_keys (ocells o) (dict_update (ocells o') es)))) -> (N <= l < length h4)%nat).
+  { intros l Hl. apply in_refs_keep_keys in Hl. apply in_refs_dict_update in Hl. destruct Hl as [Hl|Hl].
     - split; [eapply C4; [| exact Eo' | destruct o'; exact Hl]; lia | eapply W4; [exact Eo' | destruct o'; exact Hl]].
     - eapply cells_ok_refs; eauto. }
   unfold set_obj. repeat split.
